@@ -109,8 +109,9 @@ type DeliverCall struct {
 // RecManager records Deliver calls and the header facts of their payload, then delegates.
 type RecManager struct {
 	message.Manager
-	mu    sync.Mutex
-	Calls []DeliverCall
+	mu            sync.Mutex
+	Calls         []DeliverCall
+	BeforeDeliver func() // harness callback at the start of every Deliver (may be nil)
 }
 
 // AddrStr is the projection of a mail.Address that is compared.
@@ -149,7 +150,11 @@ func (m *RecManager) Deliver(from *policy.Origin, rcpts []*policy.Recipient, rec
 	f := HdrFacts(source)
 	m.mu.Lock()
 	m.Calls = append(m.Calls, f)
+	cb := m.BeforeDeliver
 	m.mu.Unlock()
+	if cb != nil {
+		cb()
+	}
 	return m.Manager.Deliver(from, rcpts, recvd, source)
 }
 
